@@ -291,8 +291,13 @@ package server
 // ---------------------------------------------------------------------------------------------
 // Follower side of replication (property C02): data and HW are taken only from the current leader epoch
 //@ ghost var newest int64
-//@ func (*partition).handleReplicationResponse serves C02
+// (C14: the follower never crashes on what a replication response carries - a response that does not decode, or whose
+//  message set the log refuses as malformed, is dropped; only a failure of the log itself may stop the server)
+//@ func (*partition).handleReplicationResponse serves C02, C14
 //@   requires p != nil && msg != nil
+//@   assumes [C14:wiring] p.srv != nil && p.srv.logger != nil && p.log != nil && p.Partition != nil
+//@   safety C14
+//@   call panic requires [C14:a-malformed-message-set-is-no-reason-to-crash] err != nil && err != commitlog.ErrMalformedMessageSet
 //@   ghost after call NewestOffset: ghost.newest := ret0
 //@   call SetHighWatermark requires [current-epoch-only] p.isFollowing && p.LeaderEpoch == leaderEpoch
 //@   call AppendMessageSet requires [current-epoch-only] p.isFollowing && p.LeaderEpoch == leaderEpoch
